@@ -110,6 +110,9 @@ def handle (line : String) : String :=
   | ["close", n, mask, seed] =>
     let n := natOr n 0
     showClose n (runFan (closeShape Facts.closeSkel).cfg n (natOr mask 0) (natOr seed 0))
+  | ["closef", n, mask, seed] =>
+    let n := natOr n 0
+    showClose n (runFan (closeShape Facts.closeSkel).cfg n (natOr mask 0) (natOr seed 0))
   | ["closez", n, mask, _zmask, seed] =>
     let n := natOr n 0
     showClose n (runFan (closeShape Facts.closeSkel).cfg n (natOr mask 0) (natOr seed 0))
